@@ -11,6 +11,10 @@
 //	go        go statements
 //	osenv     os.Getenv / LookupEnv / Environ / Hostname / Getpid / Getwd, time.Local / Time.Local() (host time zone)
 //	runtime   any use of package runtime
+//	localtime local-zone time: time.Unix/UnixMilli/UnixMicro/Parse (result carries the host's zone unless .UTC() is applied
+//	          in the same expression), time.Date / ParseInLocation / Time.In with a location other than time.UTC, time.Local,
+//	          Time.Local(), and zone-dependent renderings of a time.Time not forced by .UTC() in the same expression
+//	          (Format, AppendFormat, String, MarshalJSON/Text, Zone, Location, Date, Clock, Year ... ISOWeek)
 //	procstate write to process-local state: a package-level variable or a field of a hand-written struct type of
 //	          the application (assignment, index assignment, append, delete, Store/Delete/..., big.Int mutators)
 //	          outside constructors (New*/Make*), init and Register* functions
@@ -340,6 +344,20 @@ func mutableLibType(t types.Type) bool {
 	return false
 }
 
+func isTimeType(t types.Type) bool {
+	if t == nil {
+		return false
+	}
+	if p, ok := t.(*types.Pointer); ok {
+		t = p.Elem()
+	}
+	n, ok := t.(*types.Named)
+	return ok && n.Obj().Pkg() != nil && n.Obj().Pkg().Path() == "time" && n.Obj().Name() == "Time"
+}
+
+// expressions that are the receiver of a .UTC() call (their zone is forced in the same expression)
+var utcForced = map[ast.Expr]bool{}
+
 func wiringFunc(fn string) bool {
 	if i := strings.LastIndexByte(fn, '.'); i >= 0 {
 		fn = fn[i+1:]
@@ -388,6 +406,42 @@ func scan(pi *pkgInfo, relDir string) []site {
 						add(fn, "procstate", r)
 					}
 				case *ast.CallExpr:
+					// ---- local-zone time: values carrying the HOST's zone, and zone-dependent renderings
+					if se, ok := x.Fun.(*ast.SelectorExpr); ok {
+						if se.Sel.Name == "UTC" && isTimeType(pi.info.TypeOf(se.X)) {
+							utcForced[se.X] = true // visited before its receiver (pre-order)
+						}
+						if pkgOf(pi.info, se.X) == "time" {
+							switch se.Sel.Name {
+							case "Unix", "UnixMilli", "UnixMicro", "Parse":
+								if !utcForced[x] {
+									add(fn, "localtime", "time."+se.Sel.Name)
+								}
+							case "Date", "ParseInLocation":
+								if len(x.Args) > 0 && src(x.Args[len(x.Args)-1]) != "time.UTC" && !utcForced[x] {
+									add(fn, "localtime", "time."+se.Sel.Name)
+								}
+							}
+						} else if isTimeType(pi.info.TypeOf(se.X)) {
+							switch se.Sel.Name {
+							case "In":
+								if len(x.Args) == 1 && src(x.Args[0]) != "time.UTC" {
+									add(fn, "localtime", "Time.In")
+								}
+							case "Format", "AppendFormat", "String", "GoString", "MarshalJSON", "MarshalText", "Zone", "Location",
+								"Date", "Clock", "Year", "Month", "Day", "Hour", "Minute", "Weekday", "YearDay", "ISOWeek":
+								forced := false
+								if c, ok := se.X.(*ast.CallExpr); ok {
+									if s2, ok := c.Fun.(*ast.SelectorExpr); ok && s2.Sel.Name == "UTC" && isTimeType(pi.info.TypeOf(s2.X)) {
+										forced = true
+									}
+								}
+								if !forced {
+									add(fn, "localtime", "Time."+se.Sel.Name)
+								}
+							}
+						}
+					}
 					if wiringFunc(fn) {
 						break
 					}
@@ -422,8 +476,8 @@ func scan(pi *pkgInfo, relDir string) []site {
 					}
 				case *ast.SelectorExpr:
 					if x.Sel.Name == "Local" { // host time zone: time.Local, Time.Local()
-						if t := pi.info.TypeOf(x.X); pkgOf(pi.info, x.X) == "time" || (t != nil && t.String() == "time.Time") {
-							add(fn, "osenv", "time.Local")
+						if pkgOf(pi.info, x.X) == "time" || isTimeType(pi.info.TypeOf(x.X)) {
+							add(fn, "localtime", "time.Local")
 						}
 					}
 					switch p := pkgOf(pi.info, x.X); p {
@@ -644,9 +698,9 @@ func main() {
 	b.WriteString("(* GENERATED by /verif/harness/cmd/gen_nondet from the working tree -- do not edit.\n")
 	fmt.Fprintf(&b, "   %d packages, %d files scanned (x/, app/ and types/; excluded: client cli simulation legacy testutil teststaking, *_test.go, *.pb.gw.go). *)\n", len(scopes), nfiles)
 	b.WriteString("From Sekai Require Import Base.Prelude.\n\n")
-	b.WriteString("Inductive site_kind : Type := KTimeNow | KRand | KMapRange | KPbMap | KMapKeys | KGo | KOsEnv | KRuntime | KProcState.\n")
+	b.WriteString("Inductive site_kind : Type := KTimeNow | KRand | KMapRange | KPbMap | KMapKeys | KGo | KOsEnv | KRuntime | KProcState | KLocalTime.\n")
 	b.WriteString("Record site : Type := mkSite { s_file : string; s_func : string; s_kind : site_kind; s_expr : string; s_ord : nat }.\n\n")
-	kinds := map[string]string{"timenow": "KTimeNow", "rand": "KRand", "maprange": "KMapRange", "pbmap": "KPbMap", "mapkeys": "KMapKeys", "go": "KGo", "osenv": "KOsEnv", "runtime": "KRuntime", "procstate": "KProcState"}
+	kinds := map[string]string{"timenow": "KTimeNow", "rand": "KRand", "maprange": "KMapRange", "pbmap": "KPbMap", "mapkeys": "KMapKeys", "go": "KGo", "osenv": "KOsEnv", "runtime": "KRuntime", "procstate": "KProcState", "localtime": "KLocalTime"}
 	b.WriteString("Definition sites : list site := [\n")
 	for i, s := range sites {
 		sep := ";"
